@@ -11,7 +11,7 @@ use crate::worker::{Violation, WorkerResult, WorkerSpec, add, bump};
 use bugstalker::debugger::address::{Address, RelocatedAddress};
 use bugstalker::debugger::process::Child;
 use bugstalker::debugger::register::debug::{BreakCondition, BreakSize};
-use bugstalker::debugger::variable::dqe::Literal;
+use bugstalker::debugger::variable::dqe::{Dqe, Literal, Selector};
 use bugstalker::debugger::variable::value::Value;
 use bugstalker::debugger::{Debugger, DebuggerBuilder, Error, EventHook, FunctionInfo, PlaceDescriptor, StopReason};
 use nix::sys::signal::Signal;
@@ -106,6 +106,10 @@ pub enum Op {
     RegSet(String, u64),
     /// C15: disassemble the current function
     Disasm,
+    /// C05: select frame k of the focused thread
+    SelectFrame(u32),
+    /// C14: watch a local variable by name (scoped watchpoint with a companion breakpoint)
+    WatchExpr(String, bool),
 }
 
 #[derive(Debug)]
@@ -178,6 +182,18 @@ pub struct Session<'a> {
     pub calls_made: u64,
     pub detached: bool,
     pub detach_ledger: Option<Vec<String>>,
+    /// frame selected by the user (reset to 0 by everything that moves the thread)
+    pub sel_frame: usize,
+    /// scoped (expression) watchpoints: number -> activation whose local is watched
+    pub scoped: BTreeMap<u32, u32>,
+    /// position at which each scoped watchpoint was created
+    pub scoped_added_at: BTreeMap<u32, usize>,
+    /// the history ends here: the debugger's breakpoint table no longer matches what the user set
+    pub truncate: bool,
+    /// the text ledger had no complaint after the previous operation
+    pub ledger_clean_before_op: bool,
+    /// companion breakpoints learned from the text ledger: address -> watch numbers
+    pub companions: BTreeMap<u64, BTreeSet<u32>>,
 }
 
 fn err_str(e: &Error) -> String {
@@ -233,6 +249,12 @@ impl<'a> Session<'a> {
             calls_made: 0,
             detached: false,
             detach_ledger: None,
+            sel_frame: 0,
+            scoped: BTreeMap::new(),
+            scoped_added_at: BTreeMap::new(),
+            truncate: false,
+            ledger_clean_before_op: true,
+            companions: BTreeMap::new(),
         })
     }
 
@@ -316,6 +338,9 @@ impl<'a> Session<'a> {
         let opname = name.split('(').next().unwrap().to_string();
         bump(&mut self.stats, &format!("op.{opname}"));
         let pre = self.pre_state(op);
+        if matches!(op, Op::Start | Op::Continue | Op::Stepi | Op::Step | Op::Next | Op::Finish | Op::Restart) {
+            self.sel_frame = 0;
+        }
         let mut dbg = self.dbg.take().unwrap();
         let t_op = std::time::Instant::now();
         let outcome = self.run_op(&mut dbg, op);
@@ -478,7 +503,8 @@ impl<'a> Session<'a> {
             Op::RmWatchNum(n) => match dbg.remove_watchpoint_by_number(*n) {
                 Ok(v) => {
                     let got = v.map(|v| v.number);
-                    let exp = self.watches.remove(n).map(|_| *n);
+                    let exp = self.watches.get(n).map(|_| *n);
+                    self.forget_watch(*n);
                     if got != exp {
                         self.violate("C14", "remove_result", format!("remove watchpoint #{n}: debugger removed {got:?}, model {exp:?}"));
                     }
@@ -491,7 +517,7 @@ impl<'a> Session<'a> {
                     let got = v.map(|v| v.number);
                     let exp = self.watches.iter().find(|(_, w)| w.0 == *a).map(|(n, _)| *n);
                     if let Some(n) = exp {
-                        self.watches.remove(&n);
+                        self.forget_watch(n);
                     }
                     if got != exp {
                         self.violate("C14", "remove_result", format!("remove watchpoint at {}: debugger removed {got:?}, model {exp:?}", self.sym_off(*a)));
@@ -517,8 +543,63 @@ impl<'a> Session<'a> {
             Op::WriteWord(a, v) => self.op_write_word(dbg, *a, *v),
             Op::RegSet(r, v) => self.op_reg_set(dbg, r, *v),
             Op::Disasm => self.op_disasm(dbg),
+            Op::WatchExpr(name, rw) => {
+                let before = self.patched_exe_addrs();
+                let cond = if *rw { BreakCondition::DataReadsWrites } else { BreakCondition::DataWrites };
+                match dbg.set_watchpoint_on_expr(name, Dqe::Variable(Selector::by_name(name, true)), cond) {
+                    Ok(v) => {
+                        let sz = match v.size {
+                            BreakSize::Bytes1 => 1,
+                            BreakSize::Bytes2 => 2,
+                            BreakSize::Bytes4 => 4,
+                            BreakSize::Bytes8 => 8,
+                        };
+                        let (num, addr) = (v.number, v.address.as_u64());
+                        self.watches.insert(num, (addr, sz, *rw));
+                        if let Where::At(j) = self.pos {
+                            let stack = self.tr.stack_at(j);
+                            let act = stack[self.sel_frame.min(stack.len() - 1)];
+                            self.scoped.insert(num, act);
+                            self.scoped_added_at.insert(num, j);
+                        }
+                        let after = self.patched_exe_addrs();
+                        let new: Vec<u64> = after.difference(&before).copied().collect();
+                        if new.is_empty() {
+                            // the companion already exists (another watchpoint of the same scope)
+                            let same: Vec<u64> = self.companions.iter().filter(|(_, ws)| ws.iter().any(|w| self.scoped.get(w) == self.scoped.get(&num))).map(|(a, _)| *a).collect();
+                            for a in same {
+                                self.companions.get_mut(&a).unwrap().insert(num);
+                                bump(&mut self.stats, "c14.companion_shared");
+                            }
+                        }
+                        for a in new {
+                            self.allowed_internal.insert(a);
+                            self.companions.entry(a).or_default().insert(num);
+                        }
+                        bump(&mut self.stats, "c14.expr_watch_added");
+                        // the user's breakpoints are still the user's breakpoints
+                        let listed: BTreeSet<u64> = dbg.breakpoints_snapshot().iter().map(|b| self.abs(b.addr)).collect();
+                        let lost: Vec<u64> = self.armed.keys().copied().filter(|a| !listed.contains(a)).collect();
+                        if !lost.is_empty() {
+                            let d = format!("after adding watchpoint #{num} on `{name}` the user breakpoints {:?} are no longer listed: the end-of-scope companion breakpoint took their place in the breakpoint table", lost.iter().map(|a| self.off(*a)).collect::<Vec<_>>());
+                            self.violate("C01", "user_breakpoint_replaced_by_companion", d);
+                            self.truncate = true;
+                        }
+                        Outcome::Done
+                    }
+                    Err(e) => Outcome::Err(err_str(&e)),
+                }
+            }
+            Op::SelectFrame(k) => match dbg.set_frame_into_focus(*k) {
+                Ok(n) => {
+                    self.sel_frame = n as usize;
+                    Outcome::Done
+                }
+                Err(e) => Outcome::Err(err_str(&e)),
+            },
             Op::RmAddr(a) => {
-                let started = !matches!(self.pos, Where::NotStarted);
+                // before start and after exit breakpoints are kept under their file (global) address
+                let started = !matches!(self.pos, Where::NotStarted | Where::Exited);
                 let addr = if started { Address::Relocated(RelocatedAddress::from(*a)) } else { Address::Relocated(RelocatedAddress::from(*a)) };
                 let r = dbg.remove_breakpoint(addr);
                 // before start a breakpoint may be stored under its global address
@@ -870,6 +951,96 @@ impl<'a> Session<'a> {
         p
     }
 
+    /// addresses of the executable's own text whose byte differs from the file
+    fn patched_exe_addrs(&mut self) -> BTreeSet<u64> {
+        let mut out = BTreeSet::new();
+        if matches!(self.pos, Where::NotStarted | Where::Exited) {
+            return out;
+        }
+        for m in ns::maps(self.pid).iter().filter(|m| m.perms.contains('x') && m.path == self.bin) {
+            if !self.file_text.contains_key(&m.path) {
+                let d = std::fs::read(&m.path).unwrap_or_default();
+                self.file_text.insert(m.path.clone(), d);
+            }
+            let file = &self.file_text[&m.path];
+            let len = (m.end - m.start) as usize;
+            let Some(mem) = ns::read_mem(self.pid, m.start, len) else { continue };
+            let off = m.offset as usize;
+            if off >= file.len() {
+                continue;
+            }
+            let cmp = len.min(file.len() - off);
+            for k in 0..cmp {
+                if mem[k] != file[off + k] {
+                    out.insert(m.start + k as u64);
+                }
+            }
+        }
+        out
+    }
+
+    fn forget_watch(&mut self, num: u32) {
+        self.watches.remove(&num);
+        self.scoped.remove(&num);
+        let mut gone = vec![];
+        for (a, ws) in self.companions.iter_mut() {
+            ws.remove(&num);
+            if ws.is_empty() {
+                gone.push(*a);
+            }
+        }
+        for a in gone {
+            self.companions.remove(&a);
+            self.allowed_internal.remove(&a);
+        }
+    }
+
+    /// C14: a watchpoint on a local is removed when execution leaves its scope.
+    fn check_scoped_watches(&mut self, evs: &[Ev]) {
+        let listed: BTreeSet<u32> = self.dbg.as_ref().unwrap().watchpoint_list().iter().map(|w| w.number).collect();
+        for e in evs {
+            if let Ev::Watchpoint { num, end_of_scope: true, .. } = e {
+                bump(&mut self.stats, "c14.end_of_scope_reported");
+                if let (Some(act), Where::At(j)) = (self.scoped.get(num).copied(), self.pos) {
+                    if self.tr.pos[j].act != act && self.tr.act_alive_at(act, j) {
+                        let d = format!("watchpoint #{num} on a local of activation {act} was ended at ref index {j}, inside activation {} while its own activation is still live", self.tr.pos[j].act);
+                        let inv = if self.tr.fn_of_act(self.tr.pos[j].act) == self.tr.fn_of_act(act) { "end_of_scope_taken_by_other_activation_of_same_function" } else { "end_of_scope_in_other_activation" };
+                        self.violate("C14", inv, d);
+                    }
+                }
+                self.forget_watch(*num);
+            }
+        }
+        match self.pos {
+            Where::At(j) => {
+                for (num, act) in self.scoped.clone() {
+                    if !self.tr.act_alive_at(act, j) {
+                        bump(&mut self.stats, "c14.scope_left");
+                        if listed.contains(&num) {
+                            // did the activation leave through a path that passes its companion?
+                            let from = self.scoped_added_at.get(&num).copied().unwrap_or(0);
+                            let to = self.tr.acts[act as usize].ret_idx.unwrap_or(self.tr.pos.len()).min(self.tr.pos.len());
+                            let comp: BTreeSet<u64> = self.companions.iter().filter(|(_, ws)| ws.contains(&num)).map(|(a, _)| *a).collect();
+                            let passed = self.tr.pos[(from + 1).min(to)..to].iter().any(|p| p.act == act && comp.contains(&p.rip));
+                            let inv = if passed { "scoped_watchpoint_outlives_scope" } else { "scoped_watchpoint_outlives_scope_exit_bypasses_companion" };
+                            self.violate("C14", inv, format!("watchpoint #{num} on a local of activation {act} is still listed at ref index {j}, after that activation returned (companion breakpoints {:x?} {} executed by that activation on its way out)", comp.iter().map(|a| a - self.tr.base).collect::<Vec<_>>(), if passed { "were" } else { "were not" }));
+                            // the debugger keeps it: so does the model (registers, list, companion patch)
+                            self.scoped.remove(&num);
+                        } else {
+                            self.forget_watch(num);
+                        }
+                    }
+                }
+            }
+            Where::Exited => {
+                for num in self.scoped.keys().copied().collect::<Vec<_>>() {
+                    self.forget_watch(num);
+                }
+            }
+            _ => {}
+        }
+    }
+
     fn read_dr(&self) -> Option<[u64; 8]> {
         let mut d = [0u64; 8];
         for (i, slot) in d.iter_mut().enumerate() {
@@ -893,12 +1064,26 @@ impl<'a> Session<'a> {
         }
         if !matches!(self.pos, Where::NotStarted | Where::Exited) {
             let t0 = std::time::Instant::now();
+            let nv = self.violations.len();
             self.check_ledger();
             add(&mut self.stats, "time_us.ledger", t0.elapsed().as_micros() as u64);
+            let clean_now = self.violations.len() == nv;
+            if matches!(op, Op::Call(..) | Op::CallBad(_)) && self.violations.len() > nv && self.ledger_clean_before_op {
+                // "restores ... every byte of code it touched" / "a call that cannot be made ...
+                // still restores the state": the ledger right after a call belongs to C16 too
+                let d = self.violations[nv..].iter().map(|v| format!("{}: {}", v.invariant, v.detail)).collect::<Vec<_>>().join("; ");
+                self.violate("C16", "code_not_restored_after_call", format!("after {op:?}: {d}"));
+            }
+            self.ledger_clean_before_op = clean_now;
             if !matches!(op, Op::Call(..) | Op::CallBad(_) | Op::WriteWord(..)) {
                 self.check_pokes(hist);
             }
+            if !self.scoped.is_empty() {
+                self.check_scoped_watches(evs);
+            }
             self.check_debug_registers();
+        } else if self.pos == Where::Exited && !self.scoped.is_empty() {
+            self.check_scoped_watches(evs);
         }
         if let Where::At(j) = self.pos {
             let t0 = std::time::Instant::now();
@@ -907,8 +1092,29 @@ impl<'a> Session<'a> {
         }
     }
 
+    /// Breakpoints requested by address before the process exists are materialised at start; an
+    /// address without any line-table place is refused there (as it is refused when requested
+    /// after start).  The model follows that documented refusal, and nothing else.
+    fn sync_armed_after_start(&mut self) {
+        let listed: BTreeSet<u64> = self.dbg.as_ref().unwrap().breakpoints_snapshot().iter().map(|b| self.abs(b.addr)).collect();
+        for a in self.armed.keys().copied().collect::<Vec<_>>() {
+            if !listed.contains(&a) {
+                if self.tr.in_text(a) && !self.lt.has_rows(a - self.tr.base) {
+                    self.armed.remove(&a);
+                    bump(&mut self.stats, "c01.prestart_breakpoint_without_place_dropped");
+                } else {
+                    self.violate("C01", "breakpoint_lost_at_start", format!("breakpoint {} requested before start is not listed after start", self.off(a)));
+                    self.armed.remove(&a);
+                }
+            }
+        }
+    }
+
     /// C01: continue/start stop at exactly the next armed position of the reference execution.
     fn check_continue(&mut self, op: &Op, before: Where, outcome: &Outcome, evs: &[Ev], obs: Option<(u64, u64, u64)>) {
+        if matches!(op, Op::Start) && matches!(before, Where::NotStarted) && !matches!(outcome, Outcome::Err(_)) && self.pos != Where::Exited {
+            self.sync_armed_after_start();
+        }
         let b = self.armed_set();
         let after = match (before, op) {
             (Where::NotStarted, Op::Start) => None,
@@ -923,6 +1129,13 @@ impl<'a> Session<'a> {
             (Where::At(i), _) => Some(i),
             (Where::Foreign { lb, .. }, _) => Some(lb),
         };
+        if let Outcome::Stop(StopKind::Watchpoint(a)) = outcome {
+            if self.companions.contains_key(a) {
+                // end of scope of a watched local: the stop belongs to C14 (check_scoped_watches)
+                bump(&mut self.stats, "c01.continue_ended_at_companion");
+                return;
+            }
+        }
         let expected = self.tr.next_in(after, &b);
         if let (Where::Foreign { tick, .. }, Some(j)) = (before, expected) {
             // positions sharing the TICK value read in foreign code may or may not have been
@@ -1039,6 +1252,10 @@ impl<'a> Session<'a> {
                 return;
             }
         };
+        if evs.iter().any(|e| matches!(e, Ev::Watchpoint { .. })) {
+            bump(&mut self.stats, "c03.cut_short_by_end_of_scope");
+            return;
+        }
         let tr = self.tr;
         let b = self.armed_set();
         let n = tr.pos.len();
@@ -1189,7 +1406,16 @@ impl<'a> Session<'a> {
                 if let Some(js) = jstar {
                     if j > js {
                         let d = format!("{kind} from ref index {i} ({} lines {:?}) landed at {j} ({} lines {:?}), later than the latest admissible stop {js} ({} lines {:?})", self.off(tr.pos[i].rip), l, self.off(tr.pos[j].rip), self.lines_at(tr.pos[j].rip), self.off(tr.pos[js].rip), self.lines_at(tr.pos[js].rip));
-                        let inv = if matches!(op, Op::Next) && self.after_first_epilogue(tr.pos[i].rip, tr.pos[js].rip) { "next_skips_rows_after_first_epilogue" } else { "skipped_line" };
+                        let at_pe = self.lt.rows_at(tr.pos[js].rip - tr.base).iter().any(|r| r.prologue_end);
+                        let inv = if matches!(op, Op::Next) && self.after_first_epilogue(tr.pos[i].rip, tr.pos[js].rip) {
+                            "next_skips_rows_after_first_epilogue"
+                        } else if at_pe && tr.pos[js].act == act_i {
+                            // known mechanism: started inside the prologue, the statement at the
+                            // prologue_end row (first statement of the body) is run through
+                            "step_from_prologue_skips_statement_at_prologue_end"
+                        } else {
+                            "skipped_line"
+                        };
                         self.violate("C03", inv, d);
                         return;
                     }
@@ -1262,6 +1488,10 @@ impl<'a> Session<'a> {
             return;
         }
         bump(&mut self.stats, "c11.restart_checked");
+        for num in self.scoped.keys().copied().collect::<Vec<_>>() {
+            // watchpoints on locals do not survive the process
+            self.forget_watch(num);
+        }
         self.tick_delta = 0;
         self.calls_made = 0;
         // global watchpoints survive, the model keeps them; nothing else to reset
@@ -1402,7 +1632,8 @@ impl<'a> Session<'a> {
                 self.violate("C14", "add_accepted", format!("watchpoint at {} size {sz} accepted although dup={dup} full={full} misaligned={misaligned}", self.sym_off(a)));
             }
             (Outcome::Err(e), false) => {
-                self.violate("C14", "add_refused", format!("watchpoint at {} size {sz} refused: {e}", self.sym_off(a)));
+                let now = self.read_dr();
+                self.violate("C14", "add_refused", format!("watchpoint at {} size {sz} refused: {e}; debug registers before {:x?} after {:x?}", self.sym_off(a), pre.dr, now));
             }
             (Outcome::Err(_), true) => {
                 bump(&mut self.stats, if full { "c14.fifth_refused" } else if dup { "c14.duplicate_refused" } else { "c14.misaligned_refused" });
@@ -1678,17 +1909,30 @@ impl<'a> Session<'a> {
             return;
         }
         // CFA / return address of the selected (innermost) frame
+        if self.sel_frame >= stack.len() {
+            // a frame of libc below `main` is selected: no reference for it
+            bump(&mut self.stats, "c05.selected_frame_outside_traced_code");
+            return;
+        }
+        let sel = self.sel_frame;
+        if sel > 0 {
+            bump(&mut self.stats, "c05.frame_info_checked_on_selected_frame");
+        }
         match dbg.frame_info() {
             Ok(fi) => {
-                let a0 = &tr.acts[stack[0] as usize];
+                let a0 = &tr.acts[stack[sel] as usize];
                 bump(&mut self.stats, "c05.frame_info_checked");
+                if fi.num as usize != sel {
+                    let d = format!("frame_info.num {} but frame {sel} is selected (ref index {j}{})", fi.num, if recursion { ", recursive stack" } else { "" });
+                    self.violate("C05", if recursion { "frame_num_under_recursion" } else { "frame_num" }, d);
+                }
                 if fi.cfa.as_u64() != a0.slot + 8 {
-                    let d = format!("frame_info.cfa {:#x} expected {:#x} at ref index {j}", fi.cfa.as_u64(), a0.slot + 8);
-                    self.violate("C05", "cfa", d);
+                    let d = format!("frame_info.cfa {:#x} expected {:#x} at ref index {j} (selected frame {sel})", fi.cfa.as_u64(), a0.slot + 8);
+                    self.violate("C05", if sel > 0 { "cfa_of_selected_frame" } else { "cfa" }, d);
                 }
                 if fi.return_addr.map(|a| a.as_u64()) != Some(a0.ret) {
-                    let d = format!("frame_info.return_addr {:?} expected {} at ref index {j}", fi.return_addr.map(|a| self.off(a.as_u64())), self.off(a0.ret));
-                    self.violate("C05", "return_addr", d);
+                    let d = format!("frame_info.return_addr {:?} expected {} at ref index {j} (selected frame {sel})", fi.return_addr.map(|a| self.off(a.as_u64())), self.off(a0.ret));
+                    self.violate("C05", if sel > 0 && recursion { "return_addr_of_selected_frame_under_recursion" } else { "return_addr" }, d);
                 }
             }
             Err(_) => {
@@ -1782,24 +2026,25 @@ struct Mix {
     watch: usize,
     end: usize,
     mem: usize,
+    sel: usize,
 }
 
 fn mix_for(property: &str) -> Mix {
     match property {
-        "C01" => Mix { bp: 30, rm: 14, cont: 44, stepi: 8, step: 1, next: 1, finish: 2, restart: 0, call: 0, watch: 0, end: 0, mem: 0 },
-        "C03" => Mix { bp: 8, rm: 3, cont: 14, stepi: 15, step: 22, next: 22, finish: 16, restart: 0, call: 0, watch: 0, end: 0, mem: 0 },
-        "C05" => Mix { bp: 12, rm: 3, cont: 25, stepi: 35, step: 10, next: 5, finish: 10, restart: 0, call: 0, watch: 0, end: 0, mem: 0 },
-        "C11" => Mix { bp: 20, rm: 6, cont: 30, stepi: 6, step: 5, next: 5, finish: 5, restart: 5, call: 2, watch: 5, end: 8, mem: 0 },
-        "C14" => Mix { bp: 8, rm: 2, cont: 18, stepi: 6, step: 2, next: 2, finish: 6, restart: 6, call: 0, watch: 48, end: 2, mem: 0 },
-        "C15" => Mix { bp: 12, rm: 3, cont: 16, stepi: 5, step: 3, next: 3, finish: 4, restart: 1, call: 0, watch: 0, end: 1, mem: 52 },
-        "C16" => Mix { bp: 14, rm: 4, cont: 22, stepi: 8, step: 5, next: 5, finish: 5, restart: 1, call: 34, watch: 1, end: 1, mem: 0 },
-        _ => Mix { bp: 16, rm: 8, cont: 22, stepi: 8, step: 10, next: 10, finish: 10, restart: 3, call: 5, watch: 5, end: 3, mem: 0 },
+        "C01" => Mix { bp: 30, rm: 14, cont: 44, stepi: 8, step: 1, next: 1, finish: 2, restart: 0, call: 0, watch: 3, end: 0, mem: 0, sel: 0 },
+        "C03" => Mix { bp: 8, rm: 3, cont: 14, stepi: 15, step: 22, next: 22, finish: 16, restart: 0, call: 0, watch: 0, end: 0, mem: 0, sel: 0 },
+        "C05" => Mix { bp: 12, rm: 3, cont: 25, stepi: 30, step: 10, next: 5, finish: 10, restart: 0, call: 0, watch: 0, end: 0, mem: 0, sel: 18 },
+        "C11" => Mix { bp: 20, rm: 6, cont: 30, stepi: 6, step: 5, next: 5, finish: 5, restart: 5, call: 2, watch: 5, end: 8, mem: 0, sel: 0 },
+        "C14" => Mix { bp: 8, rm: 2, cont: 18, stepi: 6, step: 2, next: 2, finish: 6, restart: 6, call: 0, watch: 48, end: 2, mem: 0, sel: 0 },
+        "C15" => Mix { bp: 12, rm: 3, cont: 16, stepi: 5, step: 3, next: 3, finish: 4, restart: 1, call: 0, watch: 0, end: 1, mem: 52, sel: 0 },
+        "C16" => Mix { bp: 14, rm: 4, cont: 22, stepi: 8, step: 5, next: 5, finish: 5, restart: 1, call: 34, watch: 1, end: 1, mem: 0, sel: 0 },
+        _ => Mix { bp: 16, rm: 8, cont: 22, stepi: 8, step: 10, next: 10, finish: 10, restart: 3, call: 5, watch: 10, end: 3, mem: 0, sel: 0 },
     }
 }
 
 fn gen_op(s: &Session, t: &mut Tape, mix: &Mix, stmt_lines: &[u64], fns: &[String]) -> Op {
     let tr = s.tr;
-    let total = mix.bp + mix.rm + mix.cont + mix.stepi + mix.step + mix.next + mix.finish + mix.restart + mix.call + mix.watch + mix.end + mix.mem;
+    let total = mix.bp + mix.rm + mix.cont + mix.stepi + mix.step + mix.next + mix.finish + mix.restart + mix.call + mix.watch + mix.end + mix.mem + mix.sel;
     let mut k = t.choose(total);
     let mut take = |w: usize| {
         if k < w {
@@ -1811,6 +2056,13 @@ fn gen_op(s: &Session, t: &mut Tape, mix: &Mix, stmt_lines: &[u64], fns: &[Strin
     };
     if take(mix.bp) {
         return match t.choose(10) {
+            0 if !s.armed.is_empty() => {
+                // an instruction right next to an armed one (both patches share a machine word)
+                let armed: Vec<u64> = s.armed.keys().copied().collect();
+                let a = armed[t.choose(armed.len())];
+                let near: Vec<u64> = tr.pos.iter().map(|p| p.rip).filter(|r| *r != a && r.abs_diff(a) < 8).collect();
+                if near.is_empty() { Op::BpAddr(tr.pos[t.choose(tr.pos.len())].rip) } else { Op::BpAddr(near[t.choose(near.len())]) }
+            }
             0..=3 => {
                 // an address of the reference execution, biased to the future
                 let from = match s.pos {
@@ -1868,6 +2120,15 @@ fn gen_op(s: &Session, t: &mut Tape, mix: &Mix, stmt_lines: &[u64], fns: &[Strin
     if take(mix.watch) {
         let cands: Vec<u64> = ["TICK", "CALLN", "CALLLOG"].iter().filter_map(|n| s.data.get(*n).copied()).collect();
         let wl: Vec<(u32, u64)> = s.watches.iter().map(|(n, w)| (*n, w.0)).collect();
+        if matches!(s.pos, Where::At(_)) && t.chance(if s.scoped.is_empty() { 3 } else { 4 }, 6) {
+            let mut names: Vec<String> = s.dbg.as_ref().and_then(|d| d.read_local_variables().ok()).map(|v| v.iter().filter_map(|q| q.identity().name.clone()).collect()).unwrap_or_default();
+            names.sort();
+            names.dedup();
+            if names.is_empty() || t.chance(1, 5) {
+                names = ["r", "acc", "a", "b", "n", "k", "v0", "v1", "i0", "x"].iter().map(|s| s.to_string()).collect();
+            }
+            return Op::WatchExpr(names[t.choose(names.len())].clone(), t.chance(1, 2));
+        }
         return match t.choose(10) {
             0..=5 if !cands.is_empty() => {
                 let base = cands[t.choose(cands.len())];
@@ -1893,6 +2154,14 @@ fn gen_op(s: &Session, t: &mut Tape, mix: &Mix, stmt_lines: &[u64], fns: &[Strin
     }
     if take(mix.mem) {
         return gen_mem_op(s, t);
+    }
+    if take(mix.sel) {
+        let depth = match s.pos {
+            Where::At(j) => tr.stack_at(j).len(),
+            _ => 1,
+        };
+        // mostly an existing frame, sometimes one past the end
+        return Op::SelectFrame(if t.chance(1, 10) { (depth + 1 + t.choose(3)) as u32 } else { t.choose(depth + 1) as u32 });
     }
     Op::Restart
 }
@@ -1985,7 +2254,7 @@ pub fn run(spec: &WorkerSpec) -> WorkerResult {
     // before start: a few breakpoint requests
     let pre = tape.choose(4);
     for _ in 0..pre {
-        let m = Mix { bp: 10, rm: 2, cont: 0, stepi: 0, step: 0, next: 0, finish: 0, restart: 0, call: 0, watch: 0, end: 0, mem: 0 };
+        let m = Mix { bp: 10, rm: 2, cont: 0, stepi: 0, step: 0, next: 0, finish: 0, restart: 0, call: 0, watch: 0, end: 0, mem: 0, sel: 0 };
         let op = gen_op(&s, &mut tape, &m, &stmt_lines, &fns);
         s.exec(&op);
     }
@@ -2016,6 +2285,10 @@ pub fn run(spec: &WorkerSpec) -> WorkerResult {
         }
         s.exec(&op);
         if matches!(op, Op::Detach) {
+            break;
+        }
+        if s.truncate {
+            dropped_early = true;
             break;
         }
     }
